@@ -44,7 +44,7 @@ class Context:
         self.assumptions = []
         self.rule = ""
         self.exhaustive = None
-        self.replay_dir = os.path.join(VERIF, "replays", prop)
+        self.replay_dir = os.path.join(VERIF, "replays" if REPO == "/repo" else ".work/replays-scratch", prop)
         self.known = load_known(prop)
         self._replay_n = 0
 
@@ -122,8 +122,10 @@ class Context:
             "wall_s": round(wall, 2),
             "violations": len(self.violations),
         }
-        os.makedirs(os.path.join(VERIF, "evidence"), exist_ok=True)
-        path = os.path.join(VERIF, "evidence", f"{self.prop}.json")
+        # runs against a scratch copy (seeded changes, mutants) leave the committed evidence alone
+        evdir = os.path.join(VERIF, "evidence") if REPO == "/repo" else os.path.join(VERIF, ".work", "evidence-scratch")
+        os.makedirs(evdir, exist_ok=True)
+        path = os.path.join(evdir, f"{self.prop}.json")
         with open(path, "w", encoding="utf-8") as handle:
             json.dump(evidence, handle, indent=1, default=str)
             handle.write("\n")
